@@ -70,7 +70,7 @@ PROPS = {
         "level": "proof",
         "technique": "Lean 4 proof (KDF totality for every password length by induction over the loops; generated salt always passes the regenerated guards; dispatcher facts) + Go/Lean byte-identical NewHash/Check correspondence under scripted entropy",
         "claim": "Kernel-checked END TO END on the scheme-level model, for all ten schemes and EVERY request: the string NewHash returns verifies with the password it was made from (EndToEnd.newHash_then_check_<scheme>; Key treated as an opaque function, so this holds for every password length and byte content), NewHash succeeds with a non-empty hash on the scheme's domain (newHash_ok/total_<scheme>), a salt drawn by Encoding.Rand violates no guard clause, the KDF skeletons return a key for every password length and every hash function (the loop arithmetic that panicked for long passwords), every documented prefix is registered with its package's Check and the dispatcher routes by prefix (C07). On the real code NewHash→Check→crypt.Check is run on every boundary length, and the generated hash string is byte-identical with the model's under scripted crypto/rand.",
-        "note": "The scheme pipeline the theorems speak about IS the current code: FlowModel.flowCheck/flowParams/flowNewHash_eq_model_<scheme> — a value semantics of the flow IR (Spec/FlowVal.lean), instantiated with the model's own unmarshal / key / encoders / ctEq, evaluates the IR REGENERATED from the current source to exactly Scheme.check / params / newHash, for all inputs (sunmd5.NewHash excepted: its if/else is outside the IR, flowNewHash_sunmd5_partial). Kernel-checked END TO END on the model for all ten schemes and EVERY request: EndToEnd.newHash_then_check_<scheme> (newHash S r = ok h → check S h r.password = nil; Key treated as an opaque function), newHash_ok_<scheme> / newHash_total_<scheme> (NewHash returns a non-empty hash on the scheme's domain; for md5/sha*/sunmd5/nthash under the named hypothesis that the hash primitive returns digests of its size; bcrypt: success given a 23-byte key), newHash_empty_iff_md5/des (the documented quirk: md5/des NewHash ignore Key's error). "
+        "note": "The scheme pipeline the theorems speak about IS the current code: FlowModel.flowCheck/flowParams/flowNewHash_eq_model_<scheme> — a value semantics of the flow IR (Spec/FlowVal.lean), instantiated with the model's own unmarshal / key / encoders / ctEq, evaluates the IR REGENERATED from the current source to exactly Scheme.check / params / newHash, for all inputs (all ten schemes; no statement of the IR is left untranslated). Kernel-checked END TO END on the model for all ten schemes and EVERY request: EndToEnd.newHash_then_check_<scheme> (newHash S r = ok h → check S h r.password = nil; Key treated as an opaque function), newHash_ok_<scheme> / newHash_total_<scheme> (NewHash returns a non-empty hash on the scheme's domain; for md5/sha*/sunmd5/nthash under the named hypothesis that the hash primitive returns digests of its size; bcrypt: success given a 23-byte key), newHash_empty_iff_md5/des (the documented quirk: md5/des NewHash ignore Key's error). "
                 "Hypotheses forced by the proofs and checked on Go: sunmd5 with rounds ≠ 0 needs at least one entropy byte (a failing entropy read panics in Go); sha1/argon2 costs < 2^32 (typing). Partial: the tie of the scheme-level model to Go is the byte-for-byte correspondence of NewHash/Check/Params under scripted entropy.",
         "rule": "scheme: per scheme 18 password lengths at quick (0,1,7,8,9,16,31,32,33,63,64,65,72,73,128,254,255,256 clipped to the scheme's maximum; every length 0..300 at thorough) with 8-bit NUL-free content, "
                 "costs at the cheap end of [Min,Max]; NewHash under scripted entropy (Go string must equal the model's byte for byte, same number of entropy bytes consumed), Check and crypt.Check must return nil, Params compared; "
@@ -86,7 +86,7 @@ PROPS = {
         "claim": "Kernel-checked for ALL hashes/passwords and every scheme instance of the pipeline: Check returns nil iff Unmarshal succeeds, Key succeeds on the hash's own salt/cost/variant and the COMPLETE encoded digest equals the stored text; "
                  "Unmarshal/Key errors are returned, never swallowed; two hashes differing only in digest text never both verify. Absorption for all H: equal md5-crypt / SHA-crypt / Sun-MD5 keys imply equal passwords or an explicitly located hash collision; sha1-crypt up to HMAC key equivalence. "
                  "On Go: every single-symbol substitution at every digest position and near-miss passwords (bit flips, append/remove, case, truncation at 8/16/32/64/72) never verify.",
-        "note": "The scheme pipeline the theorems speak about IS the current code: FlowModel.flowCheck/flowParams/flowNewHash_eq_model_<scheme> — a value semantics of the flow IR (Spec/FlowVal.lean), instantiated with the model's own unmarshal / key / encoders / ctEq, evaluates the IR REGENERATED from the current source to exactly Scheme.check / params / newHash, for all inputs (sunmd5.NewHash excepted: its if/else is outside the IR, flowNewHash_sunmd5_partial). Every scheme now has its reduction (Props/KdfProps.lean, Props/C02b.lean): the documented password equivalence as an explicit predicate, 'equivalent passwords get the same verdict', and 'if both verify against one hash they are equivalent OR a named statement about the primitive alone holds' (Collision H / KeyedCollision HMAC / DesCryptCollision / BcryptCollision / Collision blake2b ∨ Argon2CoreCollision) — the cryptographic non-collision assumption is an explicit disjunct, never an axiom. Two places where the ALGORITHM identifies more passwords than C02's wording were found by these proofs, reproduced on the real code (and on libxcrypt) and recorded as known findings: F16 (every BSDi password over 8 bytes has an 8-byte twin: the folded key's 7-bit bytes; the fold also collides) and F17 (bcrypt's key schedule reads the key cyclically: \"a\" ≡ \"a\\0a\"). NT hash is not injective on ill-formed UTF-8 (every bad byte ↦ U+FFFD) but is on well-formed input.",
+        "note": "The scheme pipeline the theorems speak about IS the current code: FlowModel.flowCheck/flowParams/flowNewHash_eq_model_<scheme> — a value semantics of the flow IR (Spec/FlowVal.lean), instantiated with the model's own unmarshal / key / encoders / ctEq, evaluates the IR REGENERATED from the current source to exactly Scheme.check / params / newHash, for all inputs (all ten schemes; no statement of the IR is left untranslated). Every scheme now has its reduction (Props/KdfProps.lean, Props/C02b.lean): the documented password equivalence as an explicit predicate, 'equivalent passwords get the same verdict', and 'if both verify against one hash they are equivalent OR a named statement about the primitive alone holds' (Collision H / KeyedCollision HMAC / DesCryptCollision / BcryptCollision / Collision blake2b ∨ Argon2CoreCollision) — the cryptographic non-collision assumption is an explicit disjunct, never an axiom. Two places where the ALGORITHM identifies more passwords than C02's wording were found by these proofs, reproduced on the real code (and on libxcrypt) and recorded as known findings: F16 (every BSDi password over 8 bytes has an 8-byte twin: the folded key's 7-bit bytes; the fold also collides) and F17 (bcrypt's key schedule reads the key cyclically: \"a\" ≡ \"a\\0a\"). NT hash is not injective on ill-formed UTF-8 (every bad byte ↦ U+FFFD) but is on well-formed input.",
         "rule": "scheme: for each generated hash: near-miss passwords (single-bit flips at byte positions, one byte appended/removed/prepended, case change, truncations at 8/16/32/64/72) — all must not verify; "
                 "for the first 3 (quick) / 20 (thorough) hashes per scheme EVERY substitution of EVERY digest position by every other alphabet symbol (exhaustive; Go only) plus a 1/97 sample through the model; "
                 "non-trivial/distinct = distinct generated hashes",
@@ -173,7 +173,7 @@ PROPS = {
         "fail_kinds": ["roundtrip", "remarshal-unstable"],
         "level": "proof",
         "technique": "Lean 4 proof (strconv Format/Parse round trips for every base and bit size; parse∘render; per-field step lemmas of the Unmarshal loop composed by induction over the field list; all ten shipped layouts over shapes regenerated from the Go structs) + Go/Lean codec correspondence on run-time generated struct types",
-        "claim": "Kernel-checked IN GENERAL (C10General.roundtrip_L6): for an arbitrary struct type and every value inside an explicit decidable hypothesis (type info as getTypeInfo builds it, Unambiguous layout with separated parameter groups, typed and Representable value whose last text is not empty and which does not mimic an omitted parameter) Unmarshal(Marshal v) = v — covering params, inline fields, text codecs, groups in any order, omitempty and trailing optional fields; each clause of the hypothesis is shown necessary by a counterexample theorem; ParseUint(FormatUint n b) = n and the Int analogue for every base 2..36 and bit size; parse∘render = id; and the ten shipped scheme layouts as instances over shapes regenerated from the current Go struct tags. Inside the hypothesis the round trip is also checked directly on Go for run-time generated types (the suite's domain test is the theorem's hypothesis). The Marshal/Unmarshal/TagInfo models are hand-written and tied by ~100 000 differential operations per run incl. error kinds, offsets and field names.",
+        "claim": "Kernel-checked IN GENERAL (C10General.roundtrip_L6): for an arbitrary struct type and every value inside an explicit decidable hypothesis (type info as getTypeInfo builds it — discharged for every type with supported field types by TiWf.typeInfoOf_tiWf —, Unambiguous layout with separated parameter groups, typed and Representable value whose last text is not empty and which does not mimic an omitted parameter) Unmarshal(Marshal v) = v — covering params, inline fields, text codecs, groups in any order, omitempty and trailing optional fields; each clause of the hypothesis is shown necessary by a counterexample theorem; ParseUint(FormatUint n b) = n and the Int analogue for every base 2..36 and bit size; parse∘render = id; and the ten shipped scheme layouts as instances over shapes regenerated from the current Go struct tags. Inside the hypothesis the round trip is also checked directly on Go for run-time generated types (the suite's domain test is the theorem's hypothesis). The Marshal/Unmarshal/TagInfo models are hand-written and tied by ~100 000 differential operations per run incl. error kinds, offsets and field names.",
         "note": "The GENERAL theorem is kernel-checked (Props/C10General.lean, roundtrip_L6 / roundtrip_general): for an arbitrary struct type and value inside the explicit decidable hypothesis — type info as getTypeInfo builds it (tiWf), Unambiguous, parameter groups separated by something that is always written, value typed and Representable, last text not empty (F12), no positional text that mimics an omitted optional parameter — Unmarshal(Marshal v) = v, covering params, inline, text codecs, groups, omitempty and trailing optionals; needs_* theorems show each added clause is necessary (two were holes in the earlier hand-calibrated predicate, found by the proof: merged group runs, a value stealing an omitted parameter's name). The proof also forced numReqValues = number of required fields, which exposed a genuine defect (a shadowed param counted twice), repaired in d4f4d57. The suite's in-domain direct check uses exactly the theorem's hypothesis. Trusted: reflect's view of a type; the codec model is tied to Go differentially.",
         "rule": "codec: 16 hand-written shapes (embedding, shadowing, pointers, mirrors of the ten shipped layouts) + 120 (quick) / 2500 (thorough) struct types generated with reflect.StructOf over kinds × tag options (1..8 fields), 6..20 values each over/outside each field's alphabet, lengths 0..40, integer extremes; "
                 "for each: typeinfo, Marshal in T/*T/**T form, Unmarshal of the canonical string and of its edit-distance-1 neighbourhood/splices, round trip, re-marshal stability, respelling verdict; "
@@ -200,7 +200,7 @@ PROPS = {
         "technique": "Lean 4 proof (three-way classification of Check on the pipeline model; every canonical-domain hash of the ten layouts is accepted with exactly its fields) + exhaustive edit-distance-1 classification correspondence on Go",
         "claim": "Kernel-checked: Check returns nil / mismatch / error exactly according to (Unmarshal result, Key result, digest equality) — errors are never reported as mismatch and never swallowed (C02.check_ok_iff, error-return theorems); for all ten shipped layouts every canonical-domain string is accepted and yields exactly its fields (C10.canonical_*), "
                  "zero-length fields are enforced (regenerated shapes). On Go: every string at edit distance 1 from canonical hashes of every scheme (all substitutions, insertions, deletions, truncations under the class alphabet), field-level splices and all short strings are classified identically by the model, incl. error kind, offset and field; Params compared likewise.",
-        "note": "The scheme pipeline the theorems speak about IS the current code: FlowModel.flowCheck/flowParams/flowNewHash_eq_model_<scheme> — a value semantics of the flow IR (Spec/FlowVal.lean), instantiated with the model's own unmarshal / key / encoders / ctEq, evaluates the IR REGENERATED from the current source to exactly Scheme.check / params / newHash, for all inputs (sunmd5.NewHash excepted: its if/else is outside the IR, flowNewHash_sunmd5_partial). Both directions are kernel-checked per shipped layout: Accept.unmarshal_eq_grammar_<scheme> — Unmarshal accepts h with fields out IFF an independently written recogniser of the documented layout (Spec/Grammar.lean: strip prefix, split on $, lengths, alphabets, decimal numbers) accepts h and reads exactly those fields. Partial: not for arbitrary struct types. Finding 9 candidates (explicit rounds=0 / v=0 read as absent) are classified identically by model and code and surface under C06 only through that reading.",
+        "note": "The scheme pipeline the theorems speak about IS the current code: FlowModel.flowCheck/flowParams/flowNewHash_eq_model_<scheme> — a value semantics of the flow IR (Spec/FlowVal.lean), instantiated with the model's own unmarshal / key / encoders / ctEq, evaluates the IR REGENERATED from the current source to exactly Scheme.check / params / newHash, for all inputs (all ten schemes; no statement of the IR is left untranslated). Both directions are kernel-checked per shipped layout: Accept.unmarshal_eq_grammar_<scheme> — Unmarshal accepts h with fields out IFF an independently written recogniser of the documented layout (Spec/Grammar.lean: strip prefix, split on $, lengths, alphabets, decimal numbers) accepts h and reads exactly those fields. Partial: not for arbitrary struct types. Finding 9 candidates (explicit rounds=0 / v=0 read as absent) are classified identically by model and code and surface under C06 only through that reading.",
         "rule": "classify: per scheme 1–3 canonical hashes (incl. implicit rounds, absent Argon2 version, both Sun-MD5 forms, $2$/$2a$), every edit at every position with 14 class-representative bytes (insert, substitute), every deletion and truncation, pairwise fragment swaps/duplications/drops, junk appendices — "
                 "sampled with a stride to ≤ 1500 (500 for Sun-MD5/bcrypt) ops per hash at quick, 12× that at thorough; × {correct, wrong} password; all strings ≤ 4/6 over {$ , = _ a 0}; "
                 "non-trivial/distinct = canonical hashes mutated",
@@ -213,7 +213,7 @@ PROPS = {
         "level": "proof",
         "technique": "Lean 4 proof (Params and Check apply the same defaults — decided on the regenerated flow IR; canonical-domain round trips of the ten layouts) + byte-for-byte NewHash correspondence and an independent canonical-layout recogniser on Go",
         "claim": "Kernel-checked END TO END on the model for all ten schemes and every request: the string NewHash returns is accepted by an independently written recogniser of the documented layout with exactly the documented prefix, the requested cost in canonical form, a salt of the (regenerated) default length over the alphabet and a fixed-length digest that is Key's own result re-encoded (EndToEnd.newHash_canonical_<scheme>); Params returns the request and the drawn salt (params_of_newHash_<scheme>); Params and Check of every scheme contain the same default-filling statements (decided on the regenerated flow IR); Check succeeds iff Key on the extracted parameters re-encodes to the stored digest (C02.check_ok_iff). On Go: every generated hash matches an independently written regular expression, Params returns the requested cost/options and the generated salt, the hash equals the model's reassembly byte for byte, the BSDi integer coding is compared on every 6-bit boundary and at the exported bound, and Check ⇔ Key(Params) is checked on the accepted non-canonical spellings.",
-        "note": "The scheme pipeline the theorems speak about IS the current code: FlowModel.flowCheck/flowParams/flowNewHash_eq_model_<scheme> — a value semantics of the flow IR (Spec/FlowVal.lean), instantiated with the model's own unmarshal / key / encoders / ctEq, evaluates the IR REGENERATED from the current source to exactly Scheme.check / params / newHash, for all inputs (sunmd5.NewHash excepted: its if/else is outside the IR, flowNewHash_sunmd5_partial). Kernel-checked END TO END on the model for all ten schemes and every request: EndToEnd.newHash_canonical_<scheme> (the returned string is accepted by the independent recogniser Spec/Grammar.lean with the documented prefix, the requested cost in canonical decimal / two-digit / 4-symbol form, a salt of the regenerated default length over the alphabet, a digest of the fixed length over the alphabet, and Key's own result re-encoded) and params_of_newHash_<scheme> (Params returns the request and the drawn salt). "
+        "note": "The scheme pipeline the theorems speak about IS the current code: FlowModel.flowCheck/flowParams/flowNewHash_eq_model_<scheme> — a value semantics of the flow IR (Spec/FlowVal.lean), instantiated with the model's own unmarshal / key / encoders / ctEq, evaluates the IR REGENERATED from the current source to exactly Scheme.check / params / newHash, for all inputs (all ten schemes; no statement of the IR is left untranslated). Kernel-checked END TO END on the model for all ten schemes and every request: EndToEnd.newHash_canonical_<scheme> (the returned string is accepted by the independent recogniser Spec/Grammar.lean with the documented prefix, the requested cost in canonical decimal / two-digit / 4-symbol form, a salt of the regenerated default length over the alphabet, a digest of the fixed length over the alphabet, and Key's own result re-encoded) and params_of_newHash_<scheme> (Params returns the request and the drawn salt). "
                 "On Go the same is checked by an independently written regular expression, by byte-identity with the model, and by descrypt.EncodeInt/DecodeInt against the model on every 6-bit boundary. Partial: model↔Go tie is differential.",
         "rule": "scheme: see C01; canonical-layout regular expression per scheme; Params compared with the model; non-trivial/distinct = distinct generated hashes",
         "trusted": COMMON_TRUST,
